@@ -41,6 +41,25 @@ example : ∃ cnf, tseitinOrd clashForm [] [] = some cnf ∧
        .iff (.atom 10) (.and (.atom 4) (.atom 8)), clashForm] := by decide
   exact ⟨_, h1, encode_sequent_valid h1 h2 _ (by decide)⟩
 
+/-- The CNF `encode` states is what its theorem instances produce: one instance of
+`encode_not/conj/disj/imp/eq` (or `eq_true` / `eq_false`) per non-atomic subterm, with the
+subterm's and its arguments' variables substituted, each contributing the right-hand side of the
+rule as `library/sat.json` states it — plus the top variable's unit clause.  (These instances are
+what the harness reads off the `theorem` + `substitution` lines of the real exported proof term and
+compares with the model; the proof term itself — about 100 primitive steps and the macros
+`imp_conj`, `apply_theorem` per formula — is not replayed on the kernel model.) -/
+theorem encode_instances_cover {f : Form} (extra : List Nat) {o : List Form}
+    (h : orderOK o f = true) :
+    tseitinOrd f extra o = some
+      ((o.filterMap (ruleInstance (freshNames (f.names ++ extra) o.length) o)).flatMap
+          instanceClauses ++ [[(varOf (freshNames (f.names ++ extra) o.length) o f, true)]]) :=
+  tseitinOrd_eq_instances extra h
+
+/-- `a ∧ ¬x1`: two instances, `encode_not[l := x4, r := x3]` and `encode_conj[l := x5, r1 := x2, r2 := x4]` -/
+example : (dedupF clashForm.subs).filterMap
+    (ruleInstance (freshNames clashForm.names 4) (dedupF clashForm.subs)) =
+    [(.encode_not, [8, 6]), (.encode_conj, [10, 4, 8])] := by decide
+
 /-! ### replay of resolution traces by `logic.resolution` (zChaff.solve, proofrec.solve_cnf) -/
 
 /-- One `logic.resolution(pt1, pt2)` step derives a consequence: wherever both clauses hold, the
